@@ -9,6 +9,8 @@ Require Import V.Model.Reader.
 Require Import V.Model.Image.
 Require Import V.Model.Subscription.
 Require Import V.Model.Assembler.
+Require Import V.Model.BufferBuilder.
+Require Import V.Model.AssemblerBB.
 Require Import V.Oracle.C05Cases.
 Open Scope Z_scope.
 
@@ -25,6 +27,14 @@ Definition slot_with (sl : slot) (im : image) : slot := let '(id, bits, init, se
 Definition slot_grow (sl : slot) (j : Z) : slot :=
   let '(id, bits, init, se, sg, im) := sl in
   (id, bits, init, se, match grow_seg [sg] 0 j with g :: _ => g | [] => sg end, im).
+
+(* the publisher continues in the next term: once the image has consumed its term to the end (position = start of term
+   n + 1) the slot's segment is replaced by a segment of term n + 1 starting at offset 0 (the image cannot tell whether
+   those frames were written before or after it left term n - it never reads ahead of its position); otherwise nothing happens *)
+Definition slot_roll (sl : slot) (vis : Z) (claim : bool) (ss : list fspec) : slot :=
+  let '(id, bits, init, se, sg, im) := sl in
+  if im_pos im =? (seg_n sg + 1) * 2 ^ bits
+  then (id, bits, init, se, build_seg init se (seg_n sg + 1, 0, vis, claim, ss), im) else sl.
 
 Fixpoint build_slots (id : Z) (ss : list sslot) : list slot :=
   match ss with
@@ -70,7 +80,8 @@ Inductive sop :=
 | SBlock (bl : Z)
 | SGrow (slot j : Z)
 | SAdd (slot : Z)
-| SRemove (slot : Z).
+| SRemove (slot : Z)
+| SRoll (slot vis : Z) (claim : bool) (ss : list fspec).
 
 (* observations: raw fragment = (offset, length, flags, Header::position(), session, payload hash) as in C05;
    a block = (offset, length, -1, Ok term id, session, 0); message = (session, length, hash) *)
@@ -133,6 +144,10 @@ Definition sstep (m : mode) (nslots : nat) (st : sstate) (o : sop) : sobs * ssta
       let st' := (map_slot id (fun sl => slot_grow sl j) absent,
                   mkSub (map_slot id (fun sl => slot_grow sl j) (s_images s)) (s_rr s), bs) in
       ((Ok 0, [], [], positions nslots 0 (all_slots st')), st')
+  | SRoll id vis claim ss =>
+      let st' := (map_slot id (fun sl => slot_roll sl vis claim ss) absent,
+                  mkSub (map_slot id (fun sl => slot_roll sl vis claim ss) (s_images s)) (s_rr s), bs) in
+      ((Ok 0, [], [], positions nslots 0 (all_slots st')), st')
   | SAdd id =>
       let st' := match find_slot id absent with
                  | Some sl => if im_closed (slot_image sl) then st
@@ -169,3 +184,74 @@ Fixpoint add_initial (st : sstate) (ids : list Z) : sstate :=
 Definition run_sub_case (m : mode) (slots : list sslot) (initial : list Z) (ops : list sop) : list sobs :=
   let all := build_slots 0 slots in
   srun m (length slots) (add_initial (all, mkSub [] 0, []) initial) ops.
+
+(* ---- the same run with the assembler's real BufferBuilders (Model/AssemblerBB.v): this is what the implementation is
+   compared with.  `ibl` is the case's initial buffer length as the harness encodes it: 0 = None (the default length),
+   negative = Some(0), else Some(ibl).  An operation in which a builder operation fails (only possible with buffers of more
+   than a gigabyte) makes the run `Panic`; Proofs/C20BBProofs.v shows that a run that returns equals `run_sub_case`. *)
+Definition ibl_arg (ibl : Z) : Z := if ibl =? 0 then DEFAULT_IBL else if ibl <? 0 then 0 else ibl.
+
+Definition sstate_bb := (list slot * sub slot * bbuilders)%type.
+
+Definition sstep_bb (m : mode) (ibl : Z) (nslots : nat) (st : sstate_bb) (o : sop) : outcome (sobs * sstate_bb) :=
+  let '(absent, s, bbs) := st in
+  match o with
+  | SPoll limit =>
+      let '(total, s', ds, _) := poll_inner pk_poll s limit in
+      r <- assemble_bb m ibl bbs (map frag_of ds) ;;
+      let st' := (absent, s', fst r) in
+      Ok ((Ok total, map (raw_obs m (absent ++ s_images s)) ds, map msg_obs (snd r), positions nslots 0 (absent ++ s_images s')), st')
+  | _ =>
+      let '(ob, st1) := sstep m nslots (absent, s, ideal_of bbs) o in
+      let '(absent', s', _) := st1 in Ok (ob, (absent', s', bbs))
+  end.
+
+Fixpoint srun_bb (m : mode) (ibl : Z) (nslots : nat) (st : sstate_bb) (ops : list sop) : outcome (list sobs) :=
+  match ops with
+  | [] => Ok []
+  | o :: r =>
+      x <- sstep_bb m ibl nslots st o ;;
+      rest <- srun_bb m ibl nslots (snd x) r ;;
+      Ok (fst x :: rest)
+  end.
+
+Definition run_sub_case_bb (m : mode) (ibl : Z) (slots : list sslot) (initial : list Z) (ops : list sop) : outcome (list sobs) :=
+  let all := build_slots 0 slots in
+  let '(absent, s, _) := add_initial (all, mkSub [] 0, []) initial in
+  srun_bb m (ibl_arg ibl) (length slots) (absent, s, []) ops.
+
+(* ---- direct BufferBuilder cases (harness kind `bb`) ----
+   operations on one builder: append `len` bytes of payload `k`, reset, set_limit; observation after each:
+   (result, limit, capacity, hash of the bytes [HDR, limit)) ; the first entry is the state after `new`.
+   `find` cases call find_suitable_capacity(capacity, required) directly (verification hook). *)
+Inductive bop := BAppend (k len : Z) | BReset | BSetLimit (limit : Z).
+
+Definition bobs := (outcome Z * Z * Z * Z)%type.
+
+Definition bb_obs (r : outcome Z) (b : bb) : bobs :=
+  (r, bb_limit b, bb_cap b, hash_bytes 7 (bb_content b)).
+
+Definition unit_out {A} (x : outcome A) : outcome Z := match x with Ok _ => Ok 0 | Err e => Err e | Panic => Panic | Hang => Hang | Crash => Crash end.
+
+Definition bstep (m : mode) (b : bb) (o : bop) : bobs * bb :=
+  match o with
+  | BAppend k len =>
+      let r := bb_append m b (payload k len) in
+      let b' := match r with Ok b' => b' | _ => b end in (bb_obs (unit_out r) b', b')
+  | BReset => let b' := bb_reset b in (bb_obs (Ok 0) b', b')
+  | BSetLimit l =>
+      let r := bb_set_limit b l in
+      let b' := match r with Ok b' => b' | _ => b end in (bb_obs (unit_out r) b', b')
+  end.
+
+Fixpoint brun (m : mode) (b : bb) (ops : list bop) : list bobs :=
+  match ops with
+  | [] => []
+  | o :: r => let '(ob, b') := bstep m b o in ob :: brun m b' r
+  end.
+
+Definition run_bb_case (m : mode) (initial : Z) (ops : list bop) : list bobs :=
+  match bb_new m initial with
+  | Ok b => bb_obs (Ok 0) b :: brun m b ops
+  | _ => [(Panic, 0, 0, 0)]
+  end.
